@@ -48,8 +48,10 @@ Print Assumptions C32_no_shared_writes.
 (* The copy's observation is unaffected by whatever the parent does after the fork.
    Hypotheses closedP/okR: what the copy can reach (its Runner, the cells not tagged TParent)
    stores no pointer to a parent-private cell.  They are decidable facts about the fork
-   state; that they hold for every reachable fork state (pointer closure of variables) is
-   NOT proved here -- the deterministic `vis` matrix of checks/c32.py tests it on the code. *)
+   state (boolean checkers closedPb/okRb with soundness lemmas exist, see the Example below);
+   that they hold for every reachable fork state (pointer closure of variables, established
+   by Runner.subshell) is NOT proved here -- the deterministic `vis` matrix of checks/c32.py
+   tests the statement on the code. *)
 Theorem C32_copy_unaffected_by_parent :
   forall grow r h ta to (ops : list op),
     length ta = length (ha h) -> length to = length (ho h) ->
@@ -63,6 +65,24 @@ Theorem C32_copy_unaffected_by_parent :
     observe (cf_c (fork_conf grow r h ta to)) (cf_h (fork_conf grow r h ta to)).
 Proof. exact copy_unaffected_by_parent. Qed.
 Print Assumptions C32_copy_unaffected_by_parent.
+
+(* The hypotheses of C32_copy_unaffected_by_parent are satisfiable: a concrete parent (array,
+   associative array, function), the classification "environment objects and Funcs are the
+   parent's, every array and map is shared", checked with the boolean checkers closedPb/okRb
+   (sound by closedPb_spec / okRb_spec); and the theorem applied to it for ALL operation lists. *)
+Example C32_copy_hypotheses_satisfiable :
+  length ex_ta = length (ha (st_h ex_parent)) /\ length ex_to = length (ho (st_h ex_parent)) /\
+  tinv TParent ex_ta ex_to (st_r ex_parent) (st_h ex_parent) /\
+  (forall l, nth l ex_to TShared <> TChild) /\
+  closedP (not_parent (cf_ta ex_cf)) (not_parent (cf_to ex_cf)) (cf_h ex_cf) /\
+  okR (not_parent (cf_ta ex_cf)) (not_parent (cf_to ex_cf)) (cf_c ex_cf).
+Proof. exact ex_fork_hyps. Qed.
+Example C32_copy_unaffected_instance :
+  forall ops,
+    observe (cf_c ex_cf) (cf_h (run_sched ex_grow (map (fun o => (true, o)) ops) ex_cf)) =
+    observe (cf_c ex_cf) (cf_h ex_cf).
+Proof. exact ex_copy_unaffected. Qed.
+Print Assumptions C32_copy_unaffected_instance.
 
 (* `wait g<n>`: for every interleaving of job starts and goroutine steps, when wait
    returns it returns the status of the n-th started job (bgProcs is append-only,
